@@ -219,6 +219,23 @@ def handle (_ : Unit) (toks : List Tok) : Unit × String :=
         match pyInt? x with
         | some i => pure ("ok " ++ encInt i)
         | none => pure "error"
+    | [Tok.str "findffs", pre, top] => do
+        -- find_force_fields(directory, force_fields): pre := [ [name [lines of a .ff file read before]] ... ]
+        let parsers := C13.Gen.ffDirParsers
+        let pre ← (← pre.list?).mapM fun e => do
+          match ← e.list? with
+          | [n, ls] => do
+            let ff ← C13.Dir.readFFInto C13.Gen.natoms ffTab {} (← strs? ls)
+            pure (← n.str?, ff)
+          | _ => none
+        let top ← (← top.list?).mapM fun e => do
+          match ← e.list? with
+          | [n, Tok.int 0] => pure (← n.str?, (none : Option (List C13.Dir.DirEntry)))
+          | [n, Tok.int 1, ls] => pure (← n.str?, some (← (← ls.list?).mapM dirEntryOf))
+          | _ => none
+        match C13.Dir.findForceFields C13.Gen.natoms ffTab parsers pre top with
+        | some d => pure (encList (d.map fun (n, ff) => encList [encStr n, encFF ff]))
+        | none => pure "error"
     | [Tok.str "splitext", n] => do
         let n ← n.str?
         pure (encList [encStr (C13.Dir.splitExt n), encStr (C13.Dir.basename n)])
